@@ -27,6 +27,8 @@ pub enum Step {
     Fail { voter: u8 },
     /// (expiry regime only) real time passes until every vote cast so far has certainly expired
     RealIdle,
+    /// (expiry regime only) a real sleep of 50 ms - shorter than the 80 ms vote duration
+    Nap,
     /// the application stops reading its event stream while 70 further sessions are reported (two
     /// events each; the stream holds 30 or 100 events), then catches up
     EventBacklog,
@@ -112,6 +114,7 @@ async fn run(case: &Case, rep: &mut CaseReport) -> Option<(String, String)> {
     // more than the vote duration has passed since
     let mut named_at: HashMap<(usize, SocketAddr), std::time::Instant> = HashMap::new();
     let mut real_idles = 0;
+    let mut naps = 0;
     let mut backlogs = 0;
     let mut updates_after_idle = 0u64;
     for step in &case.steps {
@@ -159,6 +162,13 @@ async fn run(case: &Case, rep: &mut CaseReport) -> Option<(String, String)> {
                     eprintln!("[c17] backlog: {n} events were waiting in the stream");
                 }
                 rep.class("event-stream-ran-full-earlier");
+            }
+            Step::Nap => {
+                if !case.expiry || naps >= 4 {
+                    continue;
+                }
+                naps += 1;
+                std::thread::sleep(Duration::from_millis(50));
             }
             Step::RealIdle => {
                 if !case.expiry || real_idles >= 3 {
@@ -293,6 +303,16 @@ async fn run(case: &Case, rep: &mut CaseReport) -> Option<(String, String)> {
     None
 }
 
+fn estep_tail() -> BoxedStrategy<Step> {
+    prop_oneof![
+        10 => (0u8..8, prop_oneof![5 => Just(0u8), 2 => Just(1u8)]).prop_map(|(voter, cand)| Step::Pong { voter, cand }),
+        2 => Just(Step::NextRound),
+        2 => Just(Step::RealIdle),
+        2 => Just(Step::Nap),
+    ]
+    .boxed()
+}
+
 impl Property for C17 {
     type Case = Case;
     const ID: &'static str = "C17";
@@ -325,7 +345,23 @@ impl Property for C17 {
             steps.extend(tail);
             Case { dual, min, n_voters: 8, first_incoming: 99, n_cands: 2, steps, expiry: true }
         });
-        prop_oneof![40 => free, 1 => expiry].boxed()
+        // dual stack: the peers that named an IPv6 address let that vote expire and vote on the IPv4
+        // address in a later round; then one further peer names the IPv6 address
+        let expiry_dual = (2u8..=4, proptest::collection::vec(estep_tail(), 0..6)).prop_map(|(min, tail)| {
+            // (the IPv6 votes are 50 ms old when their owners vote again, 100 ms - more than the 80 ms
+            // vote duration - when the last peer votes)
+            let mut steps: Vec<Step> = (0..min - 1).map(|v| Step::Pong { voter: v, cand: 1 }).collect();
+            steps.push(Step::Nap);
+            steps.push(Step::NextRound);
+            for v in 0..min - 1 {
+                steps.push(Step::Pong { voter: v, cand: 0 });
+            }
+            steps.push(Step::Nap);
+            steps.push(Step::Pong { voter: min - 1, cand: 1 });
+            steps.extend(tail);
+            Case { dual: true, min, n_voters: 8, first_incoming: 99, n_cands: 2, steps, expiry: true }
+        });
+        prop_oneof![80 => free, 2 => expiry, 1 => expiry_dual].boxed()
     }
     fn run(case: &Case) -> CaseReport {
         let mut rep = CaseReport::default();
